@@ -37,6 +37,19 @@ def check(run, text, viol, counts, classes, chains=None, titrate_only=None, remo
         if first_sites is None:
             first_sites = sites
         _check_conf(name, rec["confs"][name], sites, titrate_only, viol, counts, classes, c, check_hetero)
+    # ions: every hetero atom whose residue name is a configured ion must yield an ION group
+    ions_expected = _ions_in_text(text, chains, c)
+    for name in names:
+        m = int(name[:-1])
+        exp_i = ions_expected.get(m, [])
+        got_i = [tuple(g["akey"]) for g in rec["confs"][name]["groups"] if g["type"] == "ION"]
+        counts["ions_expected"] = counts.get("ions_expected", 0) + len(exp_i)
+        for k in exp_i:
+            if got_i.count(k) != 1:
+                viol.append({"cls": "ion-not-recognised", "msg": "%s: ion atom %r of the input yields %d ION groups" % (name, k, got_i.count(k))})
+        for k in got_i:
+            if k not in exp_i:
+                viol.append({"cls": "census-spurious", "msg": "%s: ION group on %r which is not a configured ion" % (name, k)})
     if set(per_conf) - set(names):
         viol.append({"cls": "census-conformation", "msg": "models %r of the input have no conformation" % sorted(set(per_conf) - set(names))})
     if first_sites is None:
@@ -195,3 +208,26 @@ def _check_summary(run, exp_sites, avr, first_conf, viol, counts, classes, remov
             viol.append({"cls": "summary-model-pka", "msg": "summary %s model pKa %.2f, table says %.2f" % (r["label"], r["model"], ss[0]["model"])})
         if any(s["bridged"] for s in ss) and len(ss) == 1 and abs(r["pka"] - 99.99) > 0.005:
             viol.append({"cls": "census-bridged-cys", "msg": "summary shows bridged %s with pKa %.2f" % (r["label"], r["pka"])})
+
+
+def _ions_in_text(text, chains, c):
+    """{model: [akey]} of atoms (either record type) whose residue name is a configured ion."""
+    from .. import pdbio
+    out = {}
+    model = 1
+    for line in text.splitlines():
+        tag = (line[:6] + "      ")[:6]
+        if tag == "MODEL ":
+            try:
+                model = int(line[6:])
+            except ValueError:
+                pass
+            continue
+        if tag not in pdbio.ATOM_TAGS or len(line) < 54:
+            continue
+        r = pdbio.Rec(line)
+        if r.resn in c["ignore_residues"] or (chains and r.chain not in chains) or r.elem() == "H":
+            continue
+        if r.resn.strip() in c["ions"]:
+            out.setdefault(model, []).append(r.akey())
+    return out
